@@ -19,6 +19,7 @@ func plans(quick bool) []netsim.CrashPlan {
 		{Name: "cache-4v-victim1-txs", N: 4, Victim: 1, Flush: false, Heights: 3, WithTxs: true},
 		{Name: "flush-4v-victim2-late-votesfirst", N: 4, Victim: 2, Flush: true, Heights: 3, Late: true, VotesFirst: true},
 		{Name: "flush-1v-late-txs", N: 1, Victim: 0, Flush: true, Heights: 3, Late: true, WithTxs: true},
+		{Name: "flush-1v-second-txs", N: 1, Victim: 0, Flush: true, Heights: 3, Second: true, WithTxs: true},
 	}
 	if quick {
 		return ps
@@ -33,8 +34,13 @@ func plans(quick bool) []netsim.CrashPlan {
 	ps = append(ps, netsim.CrashPlan{Name: "flush-1v", N: 1, Victim: 0, Flush: true, Heights: 4, WithTxs: true})
 	ps = append(ps, netsim.CrashPlan{Name: "cache-1v", N: 1, Victim: 0, Flush: false, Heights: 4})
 	ps = append(ps, netsim.CrashPlan{Name: "flush-7v-victim3", N: 7, Victim: 3, Flush: true, Heights: 3})
+	for v := 0; v < 4; v += 2 {
+		ps = append(ps, netsim.CrashPlan{Name: fmt.Sprintf("flush-4v-victim%d-second-txs", v), N: 4, Victim: v, Flush: true, Heights: 4, Second: true, WithTxs: true})
+	}
 	return ps
 }
+
+var secondQs = []int{1, 2, 3, 4, 6, 8, 10, 13, 16, 20, 25, 30}
 
 func Main() {
 	r := core.Start("C05", "fault_enumeration")
@@ -55,6 +61,15 @@ func Main() {
 			n = total + 1
 			totalPoints += total + 1 - start
 			r.Extra("golden:"+plan.Name, map[string]int{"durable_units": total, "first_crash_point": start})
+		}
+		if plan.Second {
+			// case = (first crash point, second crash point); the second one q durable units after the restart
+			r.Cases("plan:"+plan.Name, n*len(secondQs), core.Opts{Procs: 16, StallSec: 600, HangIsViolation: true}, func(c *core.Case) {
+				pl := plan
+				pl.SecondQ = secondQs[c.I%len(secondQs)]
+				netsim.CrashCase(c, pl, c.I/len(secondQs))
+			})
+			continue
 		}
 		r.Cases("plan:"+plan.Name, n, core.Opts{Procs: 16, StallSec: 600, HangIsViolation: true}, func(c *core.Case) { netsim.CrashCase(c, plan, c.I) })
 	}
